@@ -7,3 +7,4 @@ CONSTANTS
 INVARIANT ReachConsistent
 INVARIANT TreeIffUnique
 INVARIANT TreeDepthIsDistance
+INVARIANT PrimIsMST
